@@ -625,7 +625,7 @@ def run(ctx):
     mods = ["TomlVerif.Props.C08", "driver"]
     lake_build(ctx, mods, {"TomlVerif.Props.C08": "property theorems"})
     audit(ctx, "TomlVerif.Props.C08", "TomlVerif/Props/C08.lean")
-    extra_props(ctx, ['C08Full'])
+    extra_props(ctx, ['C08Full', 'C08Parsed'])
     if ctx.tier == "thorough":
         leanchecker(ctx, "TomlVerif.Props.C08")
     tvh = cargo_build(ctx)
